@@ -3,6 +3,7 @@ package main
 import (
 	"encoding/hex"
 	"fmt"
+	"math/big"
 	"math/rand"
 	"time"
 
@@ -33,6 +34,9 @@ type spFam struct {
 	slots   map[string]string // gauge account address -> slot label (per scenario)
 	lastBuy M
 	cw, iw  int64
+	fine    bool              // block times with sub-hour (down to millisecond) offsets
+	gdep    map[string]*big.Int // harness-side ledger: total deposited per gauge account (per scenario)
+	grel    map[string]*big.Int // total released per gauge account
 }
 
 func init() { families["sp"] = func() Family { return &spFam{} } }
@@ -44,6 +48,7 @@ func (f *spFam) Setup(cfg M, rng *rand.Rand) {
 	f.payers = strs(getl(cfg, "payers"), []string{"a", "b"})
 	f.others = strs(getl(cfg, "others"), []string{"r", "p1"})
 	f.cw, f.iw = geti0(cfg, "C", 2), geti0(cfg, "I", 2)
+	f.fine = getb(cfg, "fine")
 	price := geti0(cfg, "price", 1)
 	ref, pol := geti0(cfg, "ref", 25), geti0(cfg, "pol", 40)
 	f.trees, f.roots = map[string]*tfile{}, map[string]string{}
@@ -79,12 +84,13 @@ func (f *spFam) Reset() M {
 	f.ctx, _ = f.base.CacheContext()
 	f.slots = map[string]string{}
 	f.lastBuy = nil
+	f.gdep, f.grel = map[string]*big.Int{}, map[string]*big.Int{}
 	return f.Project()
 }
 
 func (f *spFam) tick(t time.Time) int64 {
 	d := t.Sub(f.t0)
-	if d%time.Hour != 0 {
+	if d%time.Hour != 0 && !f.fine {
 		die(2, "sp: time %v is not a whole number of hours after the base time", t)
 	}
 	return int64(d / time.Hour)
@@ -154,7 +160,76 @@ func (f *spFam) newGaugeSlot(bBefore map[string]int64, idBefore map[string]strin
 	return "none"
 }
 
+// gaugeBalances returns the ujkl balance of every gauge account seen so far in this scenario.
+func (f *spFam) gaugeBalances() map[string]int64 {
+	out := map[string]int64{}
+	for a := range f.slots {
+		addr, err := sdk.AccAddressFromBech32(a)
+		if err == nil {
+			out[a] = f.c.App.BankKeeper.GetBalance(f.ctx, addr, "ujkl").Amount.Int64()
+		}
+	}
+	return out
+}
+
+// ledger records deposits into / releases from gauge accounts between two balance snapshots.
+func (f *spFam) ledger(before, after map[string]int64) {
+	for a, v := range after {
+		d := v - before[a]
+		if _, ok := f.gdep[a]; !ok {
+			f.gdep[a], f.grel[a] = big.NewInt(0), big.NewInt(0)
+		}
+		if d > 0 {
+			f.gdep[a].Add(f.gdep[a], big.NewInt(d))
+		} else if d < 0 {
+			f.grel[a].Add(f.grel[a], big.NewInt(-d))
+		}
+	}
+}
+
+// expected computes, with exact integer arithmetic in microseconds, the cumulative amount every gauge of the
+// pre-state should have released at time t: floor(deposited * (t-start)/(end-start)) inside [start, end];
+// gauges outside their interval are absent from the result (nothing may leave them).
+func (f *spFam) expected(t time.Time) M {
+	out := M{}
+	for _, g := range f.c.App.StorageKeeper.GetAllPaymentGauges(f.ctx) {
+		a, err := stypes.GetGaugeAccount(g)
+		if err != nil {
+			continue
+		}
+		slot, ok := f.slots[a.String()]
+		if !ok || t.After(g.End) || t.Before(g.Start) || !g.End.After(g.Start) {
+			continue
+		}
+		dep := f.gdep[a.String()]
+		if dep == nil {
+			dep = big.NewInt(0)
+		}
+		num := new(big.Int).Mul(dep, big.NewInt(t.Sub(g.Start).Microseconds()))
+		e := new(big.Int).Div(num, big.NewInt(g.End.Sub(g.Start).Microseconds()))
+		out[slot] = e.Int64()
+	}
+	return out
+}
+
 func (f *spFam) Apply(st M) M {
+	gb0 := f.gaugeBalances()
+	ev := f.apply(st, gb0)
+	f.labelNewSlots()
+	f.ledger(gb0, f.gaugeBalances())
+	return ev
+}
+
+// labelNewSlots makes sure every gauge record's account has a slot (so that the ledger sees it).
+func (f *spFam) labelNewSlots() {
+	for _, g := range f.c.App.StorageKeeper.GetAllPaymentGauges(f.ctx) {
+		if a, err := stypes.GetGaugeAccount(g); err == nil {
+			f.slotOf(a.String())
+		}
+	}
+}
+
+func (f *spFam) apply(st M, gb0 map[string]int64) M {
 	a := gets(st, "a")
 	ev := M{}
 	for k, v := range st {
@@ -199,6 +274,9 @@ func (f *spFam) Apply(st M) M {
 				}
 			}
 		}()
+		if quote > 2_000_000_000 { // beyond what the trace can carry (TLC integers are 32-bit): not attempted
+			return nil
+		}
 		ev["quote"] = quote
 		bB, idB := f.gaugeState()
 		_, err := f.c.Msg(f.ctx, &stypes.MsgBuyStorage{Creator: s.S(), ForAddress: forA.S(), DurationDays: days, Bytes: bytes, PaymentDenom: "ujkl", Referral: referral})
@@ -277,10 +355,20 @@ func (f *spFam) Apply(st M) M {
 		ev["ok"] = true
 	case "block":
 		dt := geti(st, "dt")
+		step := time.Duration(dt) * time.Hour
+		if f.fine {
+			if _, has := st["dtms"]; has {
+				step = time.Duration(geti(st, "dtms")) * time.Millisecond
+			} else { // a model-generated step: keep its hours, add a sub-second offset
+				step += 500 * time.Millisecond
+			}
+			x["dtms"] = fmt.Sprint(int64(step / time.Millisecond))
+		}
 		h := f.ctx.BlockHeight() + 1
+		x["exp"] = f.expected(f.ctx.BlockTime().Add(step))
 		// a panic in BeginBlock halts the node: nothing of that block is committed
 		cctx, write := f.ctx.CacheContext()
-		nctx := cctx.WithBlockHeight(h).WithBlockTime(f.ctx.BlockTime().Add(time.Duration(dt) * time.Hour))
+		nctx := cctx.WithBlockHeight(h).WithBlockTime(f.ctx.BlockTime().Add(step))
 		var pan interface{}
 		func() {
 			defer func() { pan = recover() }()
@@ -288,7 +376,7 @@ func (f *spFam) Apply(st M) M {
 		}()
 		if pan == nil {
 			write()
-			f.ctx = f.ctx.WithBlockHeight(h).WithBlockTime(f.ctx.BlockTime().Add(time.Duration(dt) * time.Hour))
+			f.ctx = f.ctx.WithBlockHeight(h).WithBlockTime(f.ctx.BlockTime().Add(step))
 		}
 		ev = M{"a": "block", "dt": dt, "reward": h%k.GetParams(f.ctx).CheckWindow == 0, "ok": pan == nil, "x": x}
 		if pan != nil {
@@ -350,7 +438,7 @@ func (f *spFam) Project() M {
 	bal["other"] = other
 	pr := k.GetParams(f.ctx)
 	return M{"plans": plans, "files": files, "gauges": gauges, "bal": bal, "now": f.tick(f.ctx.BlockTime()), "height": f.ctx.BlockHeight(),
-		"par": M{"ref": pr.ReferralCommission, "pol": pr.PolRatio, "C": pr.CheckWindow, "I": pr.ProofWindow}}
+		"par": M{"ref": pr.ReferralCommission, "pol": pr.PolRatio, "C": pr.CheckWindow, "I": pr.ProofWindow}, "fine": f.fine}
 }
 
 func (f *spFam) Random(rng *rand.Rand) M {
@@ -379,8 +467,15 @@ func (f *spFam) Random(rng *rand.Rand) M {
 		}
 		refs := []string{"none", "none", s, "r", "r", f.payers[0], f.payers[len(f.payers)-1]}
 		vias := []string{"addr", "name", "unknown"}
-		st := M{"a": "buy", "s": s, "for": forA, "units": int64([]int{1000, 2000, 3000, 5000, 900, 4000}[rng.Intn(6)]),
+		unitChoices := []int{1000, 2000, 3000, 5000, 900, 4000}
+		if f.fine { // no amount*ticks products are formed by TLC in fine mode: large deposits make sub-second slips visible
+			unitChoices = []int{20_000_000, 5_000_000, 20_000_000, 8_000_000, 1000, 70000}
+		}
+		st := M{"a": "buy", "s": s, "for": forA, "units": int64(unitChoices[rng.Intn(6)]),
 			"days": int64([]int{30, 30, 45, 60, 365, 366, 400, 29}[rng.Intn(8)]), "ref": refs[rng.Intn(len(refs))], "via": vias[rng.Intn(3)]}
+		if f.fine && rng.Intn(3) != 0 {
+			st["days"] = int64(30)
+		}
 		if st["ref"] == "none" && st["via"] == "name" {
 			st["via"] = "addr"
 		}
@@ -424,6 +519,10 @@ func (f *spFam) Random(rng *rand.Rand) M {
 	case r < 71:
 		rp := [][2]int64{{25, 40}, {0, 10}, {5, 10}, {10, 60}, {40, 60}, {90, 10}, {0, 0}, {25, 5}}[rng.Intn(8)]
 		return M{"a": "setratios", "ref": rp[0], "pol": rp[1]}
+	}
+	if f.fine {
+		ms := []int64{0, 1, 500, 999, 18500, 60_001, 3_599_999, 3_600_000, 86_400_000 + 777, 7 * 86_400_000, 30*86_400_000 - 1, 31 * 86_400_000}[rng.Intn(12)]
+		return M{"a": "block", "dt": int64(0), "dtms": ms}
 	}
 	return M{"a": "block", "dt": int64([]int{0, 1, 2, 7, 24, 40, 240, 720, 2000}[rng.Intn(9)])}
 }
